@@ -310,7 +310,8 @@ def run_crosstab(j):
         case["ev"] = [{"zv": [enc_val(x, vs) for x in zv.tolist()], "breaks": b, "counts": c}
                       for zv, b, c in single]
     elif steps and len(sas) == 1:
-        case["steps"] = 0
+        case["steps"] = 1
+        case["si"] = sas[0][0]
     return case
 
 
